@@ -113,9 +113,10 @@ def base_namespace(atc):
 # ------------------------------------------------------------------------------------------------ oracle environment
 class NodeEnv(sem.Env):
     """vfsem environment at one quadrature node of the symbolic assembler instance"""
-    def __init__(self, vfmod, V, node, funcs, world, kvs_by_space):
+    def __init__(self, vfmod, V, node, funcs, world, kvs_by_space, rename=None):
         sem.Env.__init__(self, vfmod, V)
         self.node = tuple(node); self.funcs = funcs; self.world = world; self.kvs_by_space = kvs_by_space
+        self.rename = rename or {}
         self.abstract_jacinv = False          # the finalised form's own JacInv expressions are evaluated (same DAG as the code)
         self.record_denoms = False
     def sym(self, name):
@@ -141,7 +142,10 @@ class NodeEnv(sem.Env):
                 b = z3.Real('B%s_%d_%d_%d' % (self.world.kvid(kv), f, q, k))
                 t = b if t is None else t * b
         elif name.startswith('in_') or name.startswith('inP_'):
-            t = z3.Real(name + '@' + node_tag(self.node))
+            nm2 = name
+            for old, new in self.rename.items():          # a field that was replaced through update(): its atoms carry the new name
+                nm2 = re.sub(r'^(inP?_)%s(_I)' % re.escape(old), lambda mm: mm.group(1) + new + mm.group(2), nm2)
+            t = z3.Real(nm2 + '@' + node_tag(self.node))
         elif name.startswith('par_'):
             t = z3.Real(name)
         else:
@@ -251,54 +255,65 @@ def analyse(args):
         pairs = [(i, j) for i in I_list for j in J_list]
         if len(pairs) > 40:
             step = max(1, len(pairs) // 40); pairs = pairs[::step][:40]
-        for (i, j) in pairs:
-            funcs = {bfs[0].name: (bfs[0].space, j if arity == 2 else i)}
-            if arity == 2: funcs[bfs[1].name] = (bfs[1].space, i)
-            # node range = intersection of the mesh supports (in units of nodes), per axis
-            rng = []
-            for ax in range(d):
-                lo, hi = 0, world.nq[ax]
-                for nm, (sp, fi) in funcs.items():
-                    ms = kvs_by_space[sp][ax].mesh_support_idx_all()
-                    lo = max(lo, ms[fi[ax], 0] * world_nqp); hi = min(hi, ms[fi[ax], 1] * world_nqp)
-                rng.append(range(int(lo), int(hi)))
-            nodes = list(itertools.product(*rng))
-            # code
-            size = 64
-            result = [None] * size
-            Iarr = list(i) + [0]; Jarr = (list(j) + [0]) if j is not None else None
+        upd = [inp for inp in V.inputs if getattr(inp, 'updatable', False)]
+        phases = [({}, 'fresh assembler')]
+        if upd and hasattr(asm, 'update'):
+            phases.append(({inp.name: inp.name + 'UPD' for inp in upd}, 'after update() of the updatable fields'))
+        out['phases'] = len(phases)
+        for rename, phase in phases:
+          if rename:
             try:
-                asm.entry_impl(Iarr, Jarr, result)
-            except ValueError as e:
-                if 'math domain error' in str(e):
-                    out['status'] = 'unsupported'; out['detail'] = 'constant subexpression outside the domain of a builtin function (e.g. log(0.0))'; return out
-                out['status'] = 'violation'; out['which'] = 'entry_impl raised ValueError: %s' % str(e)[:120]; return out
+                asm.update(**{inp.name: Field(inp.name + 'UPD', inp.shape if isinstance(inp.shape, tuple) else ((inp.shape,) if inp.shape else ()), d, physical=inp.physical) for inp in upd})
             except Exception as e:
-                out['status'] = 'violation'; out['which'] = 'entry_impl raised %s: %s' % (type(e).__name__, str(e)[:120]); out['pair'] = [list(i), list(j) if j else None]
-                return out
-            written = [k for k, v in enumerate(result) if v is not None]
-            if not nodes:
-                if written: problems.append('entry (%s,%s) with disjoint supports was written' % (i, j))
-                continue
-            tot = None
-            for node in nodes:
-                env = NodeEnv(vf, V, node, funcs, world, kvs_by_space)
-                try:
-                    vals, pr = sem.eval_finalized(V, env)
-                except NotImplementedError as e:
-                    out['status'] = 'sem-unsupported'; out['detail'] = str(e)[:100]; return out
-                problems += [p for p in pr if p not in problems]
-                fl = sem.flat(vals)
-                tot = fl if tot is None else [a + b for a, b in zip(tot, fl)]
-            if len(written) != len(tot) or written != list(range(len(tot))):
-                problems.append('entry (%s,%s): %d values written, form has %d components' % (i, j, len(written), len(tot)))
-                continue
-            for k, ref in enumerate(tot):
-                got = result[k]
-                g = sx._toreal(lift(got)); rr = ref if z3.is_expr(ref) else sem.rv(ref)
-                if not (z3.is_expr(rr) and g.eq(rr)):
-                    neqs.append(g != rr); where.append((i, j, k))
-            pairs_checked += 1
+                out['status'] = 'violation'; out['which'] = 'update() raised %s: %s' % (type(e).__name__, str(e)[:120]); return out
+          for (i, j) in pairs:
+              funcs = {bfs[0].name: (bfs[0].space, j if arity == 2 else i)}
+              if arity == 2: funcs[bfs[1].name] = (bfs[1].space, i)
+              # node range = intersection of the mesh supports (in units of nodes), per axis
+              rng = []
+              for ax in range(d):
+                  lo, hi = 0, world.nq[ax]
+                  for nm, (sp, fi) in funcs.items():
+                      ms = kvs_by_space[sp][ax].mesh_support_idx_all()
+                      lo = max(lo, ms[fi[ax], 0] * world_nqp); hi = min(hi, ms[fi[ax], 1] * world_nqp)
+                  rng.append(range(int(lo), int(hi)))
+              nodes = list(itertools.product(*rng))
+              # code
+              size = 64
+              result = [None] * size
+              Iarr = list(i) + [0]; Jarr = (list(j) + [0]) if j is not None else None
+              try:
+                  asm.entry_impl(Iarr, Jarr, result)
+              except ValueError as e:
+                  if 'math domain error' in str(e):
+                      out['status'] = 'unsupported'; out['detail'] = 'constant subexpression outside the domain of a builtin function (e.g. log(0.0))'; return out
+                  out['status'] = 'violation'; out['which'] = 'entry_impl raised ValueError: %s' % str(e)[:120]; return out
+              except Exception as e:
+                  out['status'] = 'violation'; out['which'] = 'entry_impl raised %s: %s' % (type(e).__name__, str(e)[:120]); out['pair'] = [list(i), list(j) if j else None]
+                  return out
+              written = [k for k, v in enumerate(result) if v is not None]
+              if not nodes:
+                  if written: problems.append('entry (%s,%s) with disjoint supports was written' % (i, j))
+                  continue
+              tot = None
+              for node in nodes:
+                  env = NodeEnv(vf, V, node, funcs, world, kvs_by_space, rename)
+                  try:
+                      vals, pr = sem.eval_finalized(V, env)
+                  except NotImplementedError as e:
+                      out['status'] = 'sem-unsupported'; out['detail'] = str(e)[:100]; return out
+                  problems += [p for p in pr if p not in problems]
+                  fl = sem.flat(vals)
+                  tot = fl if tot is None else [a + b for a, b in zip(tot, fl)]
+              if len(written) != len(tot) or written != list(range(len(tot))):
+                  problems.append('entry (%s,%s): %d values written, form has %d components' % (i, j, len(written), len(tot)))
+                  continue
+              for k, ref in enumerate(tot):
+                  got = result[k]
+                  g = sx._toreal(lift(got)); rr = ref if z3.is_expr(ref) else sem.rv(ref)
+                  if not (z3.is_expr(rr) and g.eq(rr)):
+                      neqs.append(g != rr); where.append((i, j, k, phase))
+              pairs_checked += 1
         out['pairs'] = pairs_checked
         out['structural'] = problems
         # discharge: entry by entry through the division-free normal form, then the general solver
@@ -340,7 +355,7 @@ def analyse(args):
             if res == 'sat': break
         if not neqs: out['queries']['unsat'] += 1
         if bad is not None:
-            out['status'] = 'violation'; out['which'] = 'entry %s component %d differs from the sum of the integrand over the quadrature nodes' % (bad[0][:2], bad[0][2]); return out
+            out['status'] = 'violation'; out['which'] = 'entry %s component %d differs from the sum of the integrand over the quadrature nodes (%s)' % (bad[0][:2], bad[0][2], bad[0][3]); return out
         if problems:
             out['status'] = 'violation'; out['which'] = '; '.join(problems[:3]); return out
         out['status'] = 'undecided' if out['queries']['unknown'] else 'holds'
@@ -452,6 +467,21 @@ try:
                 got = list(np.asarray(A).reshape(tuple(nI) + ((nc,) if nc > 1 else ()))[i].reshape(-1))
             for a, b in zip(got, tot): maxdev = max(maxdev, abs(float(a) - float(b)) / (1 + abs(float(b))))
     if maxdev > 1e-9: bad.append('compiled assembler differs from the denotation of the original form at max-degree+1 nodes per span (relative deviation %.3g)' % maxdev)
+    # updatable input fields: one Assembler object, fields replaced through update(): must equal a freshly assembled matrix for the new fields
+    upd = [inp.name for inp in V.inputs if getattr(inp, 'updatable', False)]
+    if upd and arity == 2:
+        from pyiga.assemble import Assembler
+        asmobj = Assembler(gen.make_form(vf, spec)['V'], kv_arg, updatable=upd, **dict(args))
+        A0 = asmobj.assemble(); A0 = A0.toarray() if hasattr(A0, 'toarray') else np.asarray(A0)
+        if not np.allclose(A0, A, rtol=1e-10, atol=1e-12): bad.append('Assembler object: first assembly differs from assemble()')
+        args2 = dict(args)
+        for nm in upd:
+            shape = np.asarray(args[nm].coeffs).shape
+            args2[nm] = bspline.BSplineFunc(kvg, rng.rand(*shape) + 0.25)
+        asmobj.update(**{nm: args2[nm] for nm in upd})
+        A1 = asmobj.assemble(); A1 = A1.toarray() if hasattr(A1, 'toarray') else np.asarray(A1)
+        Af = assemble.assemble(gen.make_form(vf, spec)['V'], kv_arg, args=dict(args2), layout='packed'); Af = Af.toarray() if hasattr(Af, 'toarray') else np.asarray(Af)
+        if not np.allclose(A1, Af, rtol=1e-10, atol=1e-12): bad.append('after update() of %s the reused Assembler differs from a fresh assembly with the new fields (max deviation %.3g)' % (upd, np.abs(A1 - Af).max()))
 except Exception as e:
     import traceback
     bad.append('exception %s: %s' % (type(e).__name__, str(e)[:200]))
